@@ -55,6 +55,10 @@ CHECKS = {
    text="(b) A model specification is a vector of bounded symbolic choices (classes, bases, field kinds from the supported grammar, reference targets incl. self / mutual references and several collections of one target, the order the classes are given in); the solver-driven exploration enumerates every specification within the bound and runs the real generator end to end (ClassDiagram, ORMatic, generated file, import, mapper configuration, create_all), comparing the mappers with an independent reading of the dataclasses and the text of two generations. (a) The name-building templates are lifted from the generator's source by AST and evaluated on identifiers made of bounded symbolic characters; the solver decides whether two different (class, field) pairs can get the same association-table name or an association table two equal column names (unsat = none within the bound), candidates are confirmed by the real generator.",
    note="(b) <= 2 classes quick / 3 thorough, <= 2 fields per class, fixed class names; finite choice space (the solver's role is pruning and exhaustiveness). (a) identifiers of <= 4 (quick) / 6 (thorough) characters over a 9-letter alphabet. Alternative mappings / custom types are exercised by C04/C05. Trusted: z3, the independent dataclass reading, black being deterministic.",
    technique=SYMX + "; name templates lifted by AST and decided over bounded symbolic character vectors"),
+ "C07": dict(category="translation_validation", design="DESIGN.md 4 C07",
+   text="Programs = EQL query shapes. For each, the real translator emits its SQLAlchemy statement; the statement's expression tree is given SQL semantics (inner joins, three-valued logic, IN, LIKE/instr on concrete strings) over symbolic tables - foreign-key structure and subclass choice are bounded symbolic choices, every scalar column and literal an unbounded z3 integer - while the real in-memory engine evaluates the same query over the same data as objects under symx. On every path the solver decides 'row selected by the SQL <=> object returned in memory' (and the() fails alike) for all column values; shapes the translator cannot express must raise EQLTranslationError. The SQL semantics are validated against real sqlite on seeded databases every run, and every disagreement is replayed by persisting the objects with to_dao and executing the statement in sqlite.",
+   note="<= 2 rows per table quick / 3 thorough; strings only from a small concrete pool; outer joins and implicit cross joins are reported as outside the modelled subset; rows with a NULL dereferenced relationship excluded (AttributeError in memory). Trusted: z3, symx proxies, the 150-line SQL semantics (validated against sqlite each run).",
+   technique="translation validation: real translator output interpreted over symbolic tables vs real engine under symx, decided by z3; replay in sqlite"),
 }
 NA_REASON = "check not built yet (build in progress, see DESIGN.md section 9 for the build order)"
 NA = {}
